@@ -64,9 +64,18 @@ func remoteVersion(nonce uint64) *wire.MsgVersion {
 }
 
 // remoteSide plays the other end of the handshake, reports on hs, then drains.
-func remoteSide(c net.Conn, sutInbound bool, nonce uint64, hs chan<- error) {
+// half: the remote end sends its version and never acknowledges the service's version (the connection goes away between
+// the two halves of the handshake).
+func remoteSide(c net.Conn, sutInbound bool, nonce uint64, hs chan<- error, half bool) {
 	pver, bnet := wire.ProtocolVersion, wire.MainNet
 	err := func() error {
+		if half && !sutInbound {
+			if _, _, err := wire.ReadMessage(c, pver, bnet); err != nil { // version
+				return err
+			}
+			// (the service acknowledges only after it has received both our version and our verack: nothing more to read)
+			return wire.WriteMessage(c, remoteVersion(nonce), pver, bnet)
+		}
 		if sutInbound {
 			if err := wire.WriteMessage(c, remoteVersion(nonce), pver, bnet); err != nil {
 				return err
@@ -175,6 +184,7 @@ type bookCase struct {
 	shape    map[string]bool
 	bansLeft int
 	stop     bool
+	halfNext bool // the next outbound peer stops half way through the handshake
 }
 
 func (c *bookCase) logf(f string, a ...any) {
@@ -201,7 +211,9 @@ func (c *bookCase) newPeer(host int, kind string) *bookPeer {
 	remote := &net.TCPAddr{IP: net.ParseIP(h.ip), Port: 20000 + c.port%40000}
 	sut, far := net.Pipe()
 	hs := make(chan error, 1)
-	go remoteSide(addrConn{Conn: far, remote: remote}, kind == kInbound, c.nonce<<20|uint64(c.port), hs)
+	half := c.halfNext && kind != kInbound
+	c.halfNext = false
+	go remoteSide(addrConn{Conn: far, remote: remote}, kind == kInbound, c.nonce<<20|uint64(c.port), hs, half)
 	vp := c.book.NewPeer(kind == kInbound, kind == kPersistent, remote.String(), addrConn{Conn: sut, remote: remote})
 	if vp == nil {
 		_ = sut.Close()
@@ -221,6 +233,20 @@ func (c *bookCase) newPeer(host int, kind string) *bookPeer {
 		dbg("handshake watchdog kind=%s trace=%v", kind, c.trace)
 		c.stop = true
 		return nil
+	}
+	if half {
+		// the peer id is assigned when the remote version has been processed
+		for i := 0; vp.ID() == 0; i++ {
+			if i > 400000 {
+				c.r.Inconclusive(c.id, "the remote version was never processed")
+				c.stop = true
+				return nil
+			}
+			time.Sleep(50 * time.Microsecond)
+		}
+		c.r.Count("book_peers_with_half_a_handshake", 1)
+		c.logf("(the next peer sends its version but never acknowledges ours)")
+		return &bookPeer{vp: vp, host: host, kind: kind}
 	}
 	for i := 0; !vp.Ready(); i++ {
 		if i > 400000 {
@@ -475,6 +501,7 @@ func runBookCase(r *ev.Run, id string, idx int) {
 		x := rng.Intn(100)
 		switch {
 		case x < f.add || len(c.live) == 0:
+			c.halfNext = rng.Intn(10) == 0
 			c.evAdd(c.hosts[rng.Intn(len(c.hosts))], pickKind())
 			if !c.stop && len(c.refused) > 0 && rng.Intn(100) < f.doneRefusedAtOnce {
 				c.evDone(takeAt(&c.refused, len(c.refused)-1))
